@@ -268,7 +268,7 @@ func scenarioC04(r *Run) {
 			return
 		}
 		if op.Err != nil {
-			if _, ok := op.Err.(*jrpc2.Error); !ok {
+			if _, ok := op.Err.(*jrpc2.Error); !ok && !w.defectiveSentFor(op) {
 				r.Fail("foreign-payload", "%s %d failed with %q on a healthy connection", op.Kind, op.Idx, op.ErrS)
 				return
 			}
@@ -350,7 +350,9 @@ func scenarioC05(r *Run) {
 	w.cEnd.OnFault = func(kind int) {
 		switch kind {
 		case fRecvErr, fRecvDataErr:
-			w.causes = append(w.causes, stopCause{Kind: "error", Begin: w.seq(), End: -1})
+			// one failed Recv, like one failed Send, may or may not be the end of
+			// the channel for the client (it may try again): settled by IsStopped
+			w.causes = append(w.causes, stopCause{Kind: "error", Begin: w.seq(), End: -1, Optional: true})
 		case fRecvDataEOF:
 			w.causes = append(w.causes, stopCause{Kind: "eof", Begin: w.seq(), End: -1})
 		case fSendErrLost, fSendErrAfter:
@@ -464,7 +466,7 @@ func (w *cliWorld) firstCause() int {
 func (w *cliWorld) lateOpsProbe() {
 	r := w.r
 	before := w.peerSeen
-	sendsBefore := w.cEnd.NSend
+	sendsBefore := w.cEnd.NSend - w.cEnd.NSendClosed
 	var late []*cop
 	for k := 0; k < 4; k++ {
 		op := &cop{Idx: 100 + k, Kind: opKind(k), Invoke: -1, Return: -1, CancelSeq: -1}
@@ -499,8 +501,8 @@ func (w *cliWorld) lateOpsProbe() {
 		r.Fail("op-never-returned", "a second Close, on the stopped client, has not returned")
 		return
 	}
-	if w.peerSeen != before || w.cEnd.NSend != sendsBefore {
-		r.Fail("transmitted-after-stop", "operations on a stopped client transmitted %d records", w.cEnd.NSend-sendsBefore)
+	if w.peerSeen != before || w.cEnd.NSend-w.cEnd.NSendClosed != sendsBefore {
+		r.Fail("transmitted-after-stop", "operations on a stopped client transmitted %d records", w.cEnd.NSend-w.cEnd.NSendClosed-sendsBefore)
 	}
 }
 
@@ -533,7 +535,9 @@ func (w *cliWorld) checkC05(final bool) {
 				}
 				got := false
 				for _, rep := range q.Replies {
-					if rep.Arrive >= 0 && rep.Arrive < lastQ && !rep.Defect {
+					// (a reply to an earlier transmission of the request, under an id the
+					// client has given up, answers nothing)
+					if rep.Arrive >= 0 && rep.Arrive < lastQ && !rep.Defect && (rep.ForID == "" || rep.ForID == q.ID) {
 						got = true
 					}
 				}
@@ -649,7 +653,7 @@ func (w *cliWorld) checkC05(final bool) {
 func (w *cliWorld) deliveredFirst(q *creq, ctxEnd, fc int) (*peerReply, int) {
 	for i := range q.Replies {
 		rep := &q.Replies[i]
-		if rep.Arrive < 0 || rep.Defect {
+		if rep.Arrive < 0 || rep.Defect || (rep.ForID != "" && rep.ForID != q.ID) {
 			continue
 		}
 		for _, qp := range w.qpoints {
@@ -848,7 +852,13 @@ func (w *cliWorld) opSendFailedAt(op *cop) int {
 		// (a client that sends the record again, successfully, has not failed)
 		resent := false
 		for k2 := k; k2 < len(w.sent); k2++ {
-			if w.sent[k2].Raw == w.sent[k-1].Raw {
+			same := false // the same requests again (possibly under fresh ids)
+			for _, q := range op.Reqs {
+				if strings.Contains(w.sent[k2].Raw, `"`+q.Tag+`"`) {
+					same = true
+				}
+			}
+			if same {
 				ok := true
 				for _, f := range w.cEnd.FaultedSends {
 					if f == k2+1 {
